@@ -149,7 +149,25 @@ def finish(prop, pdef, tier, seed, reg, kentries, kres, ventries, vres, wall, sc
         if replay_bin:
             import replay_run
             witness = replay_run.search_failing_input(replay_bin, prop, kf, seed, log)
-        rep = {"property": prop, "tier": tier, "repo_hash": common.repo_hash(),
+        # the verifier's own counterexample for (cheap) refuted Kani obligations: concrete values of the harness's
+        # symbolic inputs, from Kani's concrete playback
+        cex = []
+        try:
+            import kani_run
+            seen = set()
+            for o in unexplained:
+                if o["backend"] != "kani/cbmc" or o["via"] in seen or (o.get("time_s") or 0) > 240 or len(seen) >= 2:
+                    continue
+                seen.add(o["via"])
+                ent = [e for e in kentries if e.get("id", e["harness"]) == o["via"]]
+                if ent:
+                    c = kani_run.counterexample(scratch, ent[0])
+                    if c:
+                        cex.append(c)
+                        log(f"  [kani] counterexample for {o['via']}: refuted check {c['refuted_check']!r}, inputs {c['symbolic_inputs_in_order_of_kani_any_calls'][:8]}")
+        except Exception as e:
+            log(f"  [kani] counterexample extraction failed: {e}")
+        rep = {"property": prop, "tier": tier, "repo_hash": common.repo_hash(), "verifier_counterexamples": cex,
                "failed_obligations": [{k: o[k] for k in ("id", "backend", "kind", "via", "reason", "cmd")} | {"verifier_output": o["tail"]} for o in unexplained],
                "failing_input": witness,
                "replay": "bin/check --replay <this file> re-runs the failing input on the real crate (when one was found) and the failed obligations"}
